@@ -14,6 +14,10 @@ def make_plan(prop, rng, idx, tier, variant="asan"):
             plan = hist.gen_sole_survivor(rng, "C12")
             plan["knobs"]["scon_fatal"] = 0
             return plan, "sole-survivor"
+        if idx % 25 == 4:
+            plan = hist.gen_replaced_file(rng, "C12")
+            plan["knobs"]["scon_fatal"] = 0
+            return plan, "replaced-file"
         faults = (idx % 5) >= 3
         damaged = (idx % 20) in (7, 17)
         plan = hist.gen_history(rng, "C12", faults=faults, reuse=(variant == "plain"), damaged=damaged)
@@ -25,6 +29,8 @@ def make_plan(prop, rng, idx, tier, variant="asan"):
         m = idx % 10
         if idx % 20 == 13:
             return hist.gen_sole_survivor(rng, "C13"), "sole-survivor"
+        if idx % 40 == 26:
+            return hist.gen_replaced_file(rng, "C13"), "replaced-file"
         if idx % 20 == 9 and variant != "vg":
             # the CLI is one of the executions the property quantifies over
             from . import cli
